@@ -29,21 +29,31 @@ impl LedgerContext for NoLedger {
 
 // ------------------------------------------------------------------ CBOR by hand
 fn head(major: u8, n: u64, out: &mut Vec<u8>) {
+    head_w(major, n, false, out)
+}
+/// `wide`: legal but non-minimal head (argument one size wider than needed)
+fn head_w(major: u8, n: u64, wide: bool, out: &mut Vec<u8>) {
     let m = major << 5;
-    if n < 24 {
-        out.push(m | n as u8);
-    } else if n <= 0xff {
-        out.push(m | 24);
-        out.push(n as u8);
-    } else if n <= 0xffff {
-        out.push(m | 25);
-        out.extend_from_slice(&(n as u16).to_be_bytes());
-    } else if n <= 0xffff_ffff {
-        out.push(m | 26);
-        out.extend_from_slice(&(n as u32).to_be_bytes());
-    } else {
-        out.push(m | 27);
-        out.extend_from_slice(&n.to_be_bytes());
+    let size = if n < 24 { 0 } else if n <= 0xff { 1 } else if n <= 0xffff { 2 } else if n <= 0xffff_ffff { 3 } else { 4 };
+    let size = if wide && size < 4 { size + 1 } else { size };
+    match size {
+        0 => out.push(m | n as u8),
+        1 => {
+            out.push(m | 24);
+            out.push(n as u8);
+        }
+        2 => {
+            out.push(m | 25);
+            out.extend_from_slice(&(n as u16).to_be_bytes());
+        }
+        3 => {
+            out.push(m | 26);
+            out.extend_from_slice(&(n as u32).to_be_bytes());
+        }
+        _ => {
+            out.push(m | 27);
+            out.extend_from_slice(&n.to_be_bytes());
+        }
     }
 }
 fn cbor_bytes(b: &[u8], out: &mut Vec<u8>) {
@@ -51,49 +61,88 @@ fn cbor_bytes(b: &[u8], out: &mut Vec<u8>) {
     out.extend_from_slice(b);
 }
 
+/// wire-encoding variant of a datum: non-minimal heads and/or indefinite-length containers
+#[derive(Clone, Copy)]
+struct Enc {
+    wide: bool,
+    indef: bool,
+}
+impl Enc {
+    fn of(s: &str) -> Enc {
+        match s {
+            "canon" => Enc { wide: false, indef: false },
+            "wide" => Enc { wide: true, indef: false },
+            "indef" => Enc { wide: false, indef: true },
+            "wideindef" => Enc { wide: true, indef: true },
+            other => die(&format!("unknown encoding variant {other}")),
+        }
+    }
+    fn open(&self, major: u8, n: usize, out: &mut Vec<u8>) {
+        if self.indef {
+            out.push((major << 5) | 31);
+        } else {
+            head_w(major, n as u64, self.wide, out);
+        }
+    }
+    fn close(&self, out: &mut Vec<u8>) {
+        if self.indef {
+            out.push(0xff);
+        }
+    }
+}
+
 /// integer in the spec's JSON shape -> CBOR
-fn int_cbor(l: &Value, out: &mut Vec<u8>) {
+fn int_cbor(l: &Value, e: Enc, out: &mut Vec<u8>) {
     match jstr(&l["cls"]) {
         "int" => {
             let v: i128 = big_from_json(&l["v"]).parse().unwrap_or_else(|_| die("integer vector does not fit i128"));
             if v >= 0 {
-                head(0, u64::try_from(v).unwrap_or_else(|_| die("int vector above 2^64-1")), out)
+                head_w(0, u64::try_from(v).unwrap_or_else(|_| die("int vector above 2^64-1")), e.wide, out)
             } else {
-                head(1, u64::try_from(-1 - v).unwrap_or_else(|_| die("int vector below -2^64")), out)
+                head_w(1, u64::try_from(-1 - v).unwrap_or_else(|_| die("int vector below -2^64")), e.wide, out)
             }
         }
         c @ ("buint" | "bnint") => {
             head(6, if c == "buint" { 2 } else { 3 }, out);
-            cbor_bytes(&jbytes(&l["bytes"]), out);
+            let b = jbytes(&l["bytes"]);
+            head_w(2, b.len() as u64, e.wide, out);
+            out.extend_from_slice(&b);
         }
         other => die(&format!("unknown integer class {other}")),
     }
 }
 
-/// datum tree in the spec's JSON shape -> CBOR
-fn datum_cbor(d: &Value, out: &mut Vec<u8>) {
+/// datum tree in the spec's JSON shape -> CBOR in the given wire variant (tags stay minimal)
+fn datum_cbor(d: &Value, e: Enc, out: &mut Vec<u8>) {
     match jstr(&d["t"]) {
-        "i" => int_cbor(&d["int"], out),
-        "b" => cbor_bytes(&jbytes(&d["bytes"]), out),
+        "i" => int_cbor(&d["int"], e, out),
+        "b" => {
+            let b = jbytes(&d["bytes"]);
+            head_w(2, b.len() as u64, e.wide, out);
+            out.extend_from_slice(&b);
+        }
         "a" => {
             let items = jarr(&d["items"]);
-            head(4, items.len() as u64, out);
-            items.iter().for_each(|x| datum_cbor(x, out));
+            e.open(4, items.len(), out);
+            items.iter().for_each(|x| datum_cbor(x, e, out));
+            e.close(out);
         }
         "m" => {
             let pairs = jarr(&d["pairs"]);
-            head(5, pairs.len() as u64, out);
+            e.open(5, pairs.len(), out);
             for p in pairs {
-                datum_cbor(&p[0], out);
-                datum_cbor(&p[1], out);
+                datum_cbor(&p[0], e, out);
+                datum_cbor(&p[1], e, out);
             }
+            e.close(out);
         }
         "c" => {
             let tag: u64 = jstr(&d["tag"]).parse().unwrap_or_else(|_| die("bad constr tag"));
             head(6, tag, out);
             let fields = jarr(&d["fields"]);
-            head(4, fields.len() as u64, out);
-            fields.iter().for_each(|x| datum_cbor(x, out));
+            e.open(4, fields.len(), out);
+            fields.iter().for_each(|x| datum_cbor(x, e, out));
+            e.close(out);
         }
         other => die(&format!("unknown datum node {other}")),
     }
@@ -134,21 +183,23 @@ fn l_output(o: &MultiEraOutput, tx: Option<&MultiEraTx>) -> Value {
             assets.push(json!([hex(pa.policy().as_ref()), hex(a.name()), u64_int(a.output_coin().unwrap_or_default())]));
         }
     }
-    let (dhash, datum) = match o.datum() {
-        Some(DatumOption::Data(d)) => (hex(Hasher::<256>::hash(d.raw_cbor()).as_ref()), l_datum(&d.0)),
+    // dhash = H[wire bytes] for an inline datum (H = blake2b-256, computed here over the bytes on the wire)
+    let (dhash, dwire, datum) = match o.datum() {
+        Some(DatumOption::Data(d)) => (hex(Hasher::<256>::hash(d.raw_cbor()).as_ref()), hex(d.raw_cbor()), l_datum(&d.0)),
         Some(DatumOption::Hash(h)) => {
             let found = tx.and_then(|t| {
                 t.plutus_data().iter().find(|w| Hasher::<256>::hash(w.raw_cbor()).as_ref() == h.as_ref()).map(|w| l_datum(w))
             });
-            (hex(h.as_ref()), found.unwrap_or_else(none_datum))
+            (hex(h.as_ref()), String::new(), found.unwrap_or_else(none_datum))
         }
-        None => (String::new(), none_datum()),
+        None => (String::new(), String::new(), none_datum()),
     };
     json!({
         "addr": o.address().map(|a| hex(&a.to_vec())).unwrap_or_default(),
         "coin": u64_int(o.value().coin()),
         "assets": assets,
         "dhash": dhash,
+        "dwire": dwire,
         "datum": datum,
     })
 }
@@ -158,6 +209,7 @@ fn l_tx(tx: &MultiEraTx) -> Value {
         "hash": hex(tx.hash().as_ref()),
         "inputs": tx.inputs().iter().map(|i| format!("{}#{}", hex(i.hash().as_ref()), i.index())).collect::<Vec<_>>(),
         "outputs": tx.outputs().iter().map(|o| l_output(o, Some(tx))).collect::<Vec<_>>(),
+        "wdatums": tx.plutus_data().iter().map(|w| l_datum(w)).collect::<Vec<_>>(),
         "fee": u64_int(tx.fee().unwrap_or_default()),
         "start": tx.validity_start().unwrap_or_default().to_string(),
         "ttl": tx.ttl().unwrap_or_default().to_string(),
@@ -166,7 +218,7 @@ fn l_tx(tx: &MultiEraTx) -> Value {
 
 // ------------------------------------------------------------------ RPC-side projection (both schema versions)
 macro_rules! rpc_side {
-    ($m:ident, $u5c:path, $mapper:path, $qty:expr) => {
+    ($m:ident, $u5c:path, $mapper:path, $qty:expr, $ocbor:expr) => {
         pub mod $m {
             use super::*;
             use $u5c as u5c;
@@ -204,17 +256,18 @@ macro_rules! rpc_side {
                         assets.push(json!([hex(&ma.policy_id), hex(&a.name), r_int(&q)]));
                     }
                 }
-                let (dhash, datum) = match o.datum.as_ref() {
-                    Some(d) => (hex(&d.hash), d.payload.as_ref().map(r_datum).unwrap_or_else(none_datum)),
-                    None => (String::new(), none_datum()),
+                let (dhash, dwire, datum) = match o.datum.as_ref() {
+                    Some(d) => (hex(&d.hash), { let f: String = $ocbor(d); f }, d.payload.as_ref().map(r_datum).unwrap_or_else(none_datum)),
+                    None => (String::new(), String::new(), none_datum()),
                 };
-                json!({"addr": hex(&o.address), "coin": r_int(&o.coin), "assets": assets, "dhash": dhash, "datum": datum})
+                json!({"addr": hex(&o.address), "coin": r_int(&o.coin), "assets": assets, "dhash": dhash, "dwire": dwire, "datum": datum})
             }
             pub fn r_tx(t: &u5c::Tx) -> Value {
                 json!({
                     "hash": hex(&t.hash),
                     "inputs": t.inputs.iter().map(|i| format!("{}#{}", hex(&i.tx_hash), i.output_index)).collect::<Vec<_>>(),
                     "outputs": t.outputs.iter().map(r_output).collect::<Vec<_>>(),
+                    "wdatums": t.witnesses.as_ref().map(|w| w.plutus_datums.iter().map(r_datum).collect::<Vec<_>>()).unwrap_or_default(),
                     "fee": r_int(&t.fee),
                     "start": t.validity.as_ref().map(|v| v.start).unwrap_or_default().to_string(),
                     "ttl": t.validity.as_ref().map(|v| v.ttl).unwrap_or_default().to_string(),
@@ -239,9 +292,16 @@ rpc_side!(
     |a: &u5c::Asset| match a.quantity.as_ref() {
         Some(u5c::asset::Quantity::OutputCoin(b)) | Some(u5c::asset::Quantity::MintCoin(b)) => Some(b.clone()),
         None => None,
-    }
+    },
+    |d: &u5c::Datum| hex(&d.original_cbor)
 );
-rpc_side!(beta, pallas_utxorpc::v1beta::spec::cardano, pallas_utxorpc::v1beta::Mapper<NoLedger>, |a: &u5c::Asset| a.quantity.clone());
+rpc_side!(
+    beta,
+    pallas_utxorpc::v1beta::spec::cardano,
+    pallas_utxorpc::v1beta::Mapper<NoLedger>,
+    |a: &u5c::Asset| a.quantity.clone(),
+    |d: &u5c::Datum| d.original_cbor.as_ref().map(|b| hex(b)).unwrap_or_default()
+);
 
 // ------------------------------------------------------------------ u5c-ints
 /// a Babbage-era output {0: address, 1: coin, 2: [1, #6.24(datum)]}
@@ -260,6 +320,47 @@ fn output_with_inline_datum(datum: &[u8]) -> Vec<u8> {
     head(6, 24, &mut o);
     cbor_bytes(datum, &mut o);
     o
+}
+
+/// a Babbage transaction [body, witness_set, true, null]: one input, an output referring to the
+/// datum by hash, an output carrying it inline, the datum itself (same wire bytes) in the witness set
+fn tx_with_witness_datum(datum: &[u8]) -> Vec<u8> {
+    let h = Hasher::<256>::hash(datum);
+    let mut t = Vec::new();
+    head(4, 4, &mut t);
+    // body
+    head(5, 3, &mut t);
+    head(0, 0, &mut t);
+    head(4, 1, &mut t);
+    head(4, 2, &mut t);
+    cbor_bytes(&[0x44; 32], &mut t);
+    head(0, 3, &mut t);
+    head(0, 1, &mut t);
+    head(4, 2, &mut t);
+    {
+        head(5, 3, &mut t);
+        head(0, 0, &mut t);
+        let mut addr = vec![0x61u8];
+        addr.extend_from_slice(&[0x55; 28]);
+        cbor_bytes(&addr, &mut t);
+        head(0, 1, &mut t);
+        head(0, 2_000_000, &mut t);
+        head(0, 2, &mut t);
+        head(4, 2, &mut t);
+        head(0, 0, &mut t);
+        cbor_bytes(h.as_ref(), &mut t);
+    }
+    t.extend_from_slice(&output_with_inline_datum(datum));
+    head(0, 2, &mut t);
+    head(0, 170_000, &mut t);
+    // witness set {4: [datum]}
+    head(5, 1, &mut t);
+    head(0, 4, &mut t);
+    head(4, 1, &mut t);
+    t.extend_from_slice(datum);
+    t.push(0xf5);
+    t.push(0xf6);
+    t
 }
 
 /// a Babbage-era output whose value is [coin, {policy: {name: coin}}] (no assets when coin = 0)
@@ -312,11 +413,13 @@ pub fn ints(args: &Args) {
             continue;
         }
         let is_int = v.get("l").map(|l| l.get("cls").is_some()).unwrap_or(false);
+        let enc_name = v.get("enc").and_then(|e| e.as_str()).unwrap_or("canon");
+        let enc = Enc::of(enc_name);
         let mut cbor = Vec::new();
         if is_int {
-            int_cbor(&v["l"], &mut cbor);
+            int_cbor(&v["l"], enc, &mut cbor);
         } else {
-            datum_cbor(&v["l"], &mut cbor);
+            datum_cbor(&v["l"], enc, &mut cbor);
         }
         let pd: PlutusData = minicbor::decode(&cbor).unwrap_or_else(|e| die(&format!("vector {} does not decode as PlutusData: {e}", hex(&cbor))));
         // the ledger side as this harness sees it must be TLC's vector
@@ -324,28 +427,54 @@ pub fn ints(args: &Args) {
         if is_int && l["int"] != v["l"] {
             die(&format!("decoded integer {} differs from the vector {}", l["int"], v["l"]));
         }
+        // (a) map_plutus_datum directly (the wire variant does not matter here)
+        if enc_name == "canon" {
+            let mut emit = |ver: &str, r: Result<Value, String>| {
+                let (rpc, panic) = match r {
+                    Ok(x) => (x, json!("")),
+                    Err(p) => (json!({"t": "panic"}), json!(p)),
+                };
+                if is_int {
+                    let ri = if rpc["t"] == json!("i") { rpc["int"].clone() } else { json!({"cls": "missing"}) };
+                    out.ev(json!({"ev": "int", "ver": ver, "via": "datum", "l": v["l"], "rpc": ri, "want": v["want"], "panic": panic}));
+                } else {
+                    out.ev(json!({"ev": "datum", "ver": ver, "via": "datum", "l": l, "rpc": rpc, "panic": panic}));
+                }
+            };
+            emit("v1alpha", catch(|| alpha::r_datum(&ma.map_plutus_datum(&pd))));
+            emit("v1beta", catch(|| beta::r_datum(&mb.map_plutus_datum(&pd))));
+        }
+        // (b) an output carrying the datum inline, in this wire variant
         let ocbor = output_with_inline_datum(&cbor);
         let o = MultiEraOutput::decode(Era::Babbage, &ocbor).unwrap_or_else(|e| die(&format!("generated output does not decode: {e}")));
-        let mut emit = |ver: &str, via: &str, r: Result<Value, String>| {
-            let (rpc, panic) = match r {
-                Ok(x) => (x, json!("")),
-                Err(p) => (json!({"t": "panic"}), json!(p)),
-            };
-            if is_int {
-                let ri = if rpc["t"] == json!("i") { rpc["int"].clone() } else { json!({"cls": "missing"}) };
-                out.ev(json!({"ev": "int", "ver": ver, "via": via, "l": v["l"], "rpc": ri, "want": v["want"], "panic": panic}));
-            } else {
-                out.ev(json!({"ev": "datum", "ver": ver, "via": via, "l": l, "rpc": rpc, "panic": panic}));
+        let lo = l_output(&o, None);
+        if lo["dwire"] != json!(hex(&cbor)) {
+            die("inline datum bytes of the generated output are not the generated bytes");
+        }
+        for ver in ["v1alpha", "v1beta"] {
+            let r = catch(|| if ver == "v1alpha" { alpha::r_output(&ma.map_tx_output(&o, None)) } else { beta::r_output(&mb.map_tx_output(&o, None)) });
+            match r {
+                Ok(r) => out.ev(json!({"ev": "out", "ver": ver, "enc": enc_name, "l": lo, "r": r})),
+                Err(p) => out.ev(json!({"ev": "panic", "ver": ver, "src": "vector", "op": "map_tx_output", "hash": lo["dhash"], "msg": p})),
             }
-        };
-        emit("v1alpha", "datum", catch(|| alpha::r_datum(&ma.map_plutus_datum(&pd))));
-        emit("v1beta", "datum", catch(|| beta::r_datum(&mb.map_plutus_datum(&pd))));
-        emit("v1alpha", "output", catch(|| {
-            ma.map_tx_output(&o, None).datum.and_then(|d| d.payload).map(|p| alpha::r_datum(&p)).unwrap_or_else(none_datum)
-        }));
-        emit("v1beta", "output", catch(|| {
-            mb.map_tx_output(&o, None).datum.and_then(|d| d.payload).map(|p| beta::r_datum(&p)).unwrap_or_else(none_datum)
-        }));
+        }
+        // (c) a transaction with the datum in the witness set, one output referring to it by
+        //     hash and one carrying it inline (datum trees only: integers are covered by (b))
+        if !is_int {
+            let txc = tx_with_witness_datum(&cbor);
+            let tx = MultiEraTx::decode_for_era(Era::Babbage, &txc).unwrap_or_else(|e| die(&format!("generated tx does not decode: {e}")));
+            let lt = l_tx(&tx);
+            if lt["outputs"][0]["datum"] != l {
+                die("generated tx: the hash-referenced datum was not found in the witness set");
+            }
+            for ver in ["v1alpha", "v1beta"] {
+                let r = catch(|| if ver == "v1alpha" { alpha::r_tx(&ma.map_tx(&tx)) } else { beta::r_tx(&mb.map_tx(&tx)) });
+                match r {
+                    Ok(r) => out.ev(json!({"ev": "tx", "ver": ver, "src": format!("vector/{enc_name}"), "l": lt, "r": r})),
+                    Err(p) => out.ev(json!({"ev": "panic", "ver": ver, "src": "vector", "op": "map_tx", "hash": lt["hash"], "msg": p})),
+                }
+            }
+        }
     }
     println!("{}", json!({"vectors": vecs.len(), "events": out.finish()}));
 }
